@@ -267,8 +267,8 @@ def ref(e: Any) -> tuple[Any, Any]:
                 raise Refuse(f"argument of {e.func} has dimension {kd}")
         try:
             v = e.func(*[kv for kv, _ in kids])
-        except (ZeroDivisionError, ValueError, TypeError, AttributeError) as ex:
-            # AttributeError: sympy's Mod on NaN
+        except (ZeroDivisionError, ValueError, TypeError, AttributeError, NotImplementedError) as ex:
+            # AttributeError / NotImplementedError: sympy's Mod on NaN and on huge non-integers
             raise DontCare(f"{e.func} is undefined for these values: {ex}") from ex
         if v.has(sp.zoo) or v.has(sp.AccumBounds):
             raise DontCare("complex infinity / accumulation bounds")
@@ -288,18 +288,19 @@ def judge(e: Any) -> tuple[str, str]:
         want = r
     except DontCare as r:
         want = r
-    except (OverflowError, MemoryError, RecursionError, ValueError, TypeError, ZeroDivisionError) as r:
+    except (OverflowError, MemoryError, RecursionError, ValueError, TypeError, ZeroDivisionError,
+            NotImplementedError, AttributeError) as r:
         want = DontCare(f"reference cannot evaluate this tree: {type(r).__name__}")
     try:
         q = Quantity(e)
         got: Any = (q.scale_factor, q.dimension)
     except REFUSALS as ex:
         got = ex
-    except (RecursionError, OverflowError, ZeroDivisionError, AttributeError) as ex:
+    except (RecursionError, OverflowError, ZeroDivisionError, AttributeError, NotImplementedError) as ex:
         got = ex
     if isinstance(want, DontCare):
         if isinstance(got, Exception) and not isinstance(got, REFUSALS + (OverflowError,
-                ZeroDivisionError, AttributeError)):
+                ZeroDivisionError, AttributeError, NotImplementedError)):
             return "dontcare", f"unexpected exception {type(got).__name__}: {short(got)}"
         return "dontcare", ""
     if isinstance(want, Refuse):
